@@ -23,7 +23,7 @@ pub fn def() -> PropDef {
 }
 
 fn streams(t: Tier) -> Vec<StreamDef> {
-    vec![st("grid", t.n(39 * 16 * 8, 39 * 16 * 64, 80, 39 * 16 * 2), true), st("random", t.n(30_000, 1_500_000, 60, 8_000), false), st("reveal_any", t.n(40_000, 2_000_000, 80, 10_000), false), st("giant", t.n(12, 96, 0, 12), false)]
+    vec![st("grid", t.n(39 * 16 * 8, 39 * 16 * 64, 80, 39 * 16 * 2), true), st("random", t.n(30_000, 1_500_000, 60, 8_000), false), st("reveal_any", t.n(40_000, 2_000_000, 80, 10_000), false), st("giant", t.n(16, 128, 0, 16), false)]
 }
 
 fn floors(t: Tier) -> Vec<(String, u64)> {
@@ -207,11 +207,14 @@ fn run(ctx: &mut Ctx) {
         "reveal_any" => judge_reveal(ctx),
         "giant" => {
             // block counts at and beyond 2^12 and 2^16 (hide accepts any length padding)
-            let blocks = *ctx.rng.pick(&[4_095usize, 4_096, 4_097, 65_535, 65_536, 65_537, 65_540]);
+            // every 16th giant case (thorough: more) goes past 2^24 octets, where single-precision
+            // arithmetic stops being exact
+            let colossal = ctx.idx % 16 == 7;
+            let blocks = if colossal { (1usize << 20) + *ctx.rng.pick(&[1usize, 2, 3]) } else { *ctx.rng.pick(&[4_095usize, 4_096, 4_097, 65_535, 65_536, 65_537, 65_540]) };
             let a = val::avp_kind(&mut ctx.rng, (ctx.idx % 39) as usize, 40);
             let plen = senc::payload(&a).len();
             // plaintext length (before alignment padding) = 16*(blocks-1) + 1..16
-            let target = 16 * (blocks - 1) + 1 + ctx.rng.below(16) as usize;
+            let target = 16 * (blocks - 1) + if colossal { *ctx.rng.pick(&[1usize, 1, 2, 15, 16]) } else { 1 + ctx.rng.below(16) as usize };
             let lp = ctx.rng.bytes(target - 2 - plen);
             let mut ap = [0u8; 16];
             ap.copy_from_slice(&ctx.rng.bytes(16));
